@@ -57,7 +57,7 @@ type Gen struct {
 	Genesis    *Node
 	Now        time.Time // the clock against which "too new" is judged
 	WithBlocks bool
-	Spacing    int64 // seconds: TargetTimePerBlock
+	Spacing    int64                    // seconds: TargetTimePerBlock
 	ByHash     map[chainhash.Hash]*Node // guarded by mu: use Lookup outside the generator
 	mu         sync.RWMutex
 	MaxHashes  float64 // cap on expected hashes per header when steering difficulty
@@ -76,6 +76,10 @@ type Config struct {
 	Net         wire.BitcoinNet // 0 → a private magic derived from the seed
 	WithBlocks  bool
 	SpacingSec  int64 // TargetTimePerBlock in seconds (default 10)
+	// OpaqueSpendPct (default 0: never) is the percentage of generated
+	// transaction inputs from which txscript.ComputePkScript cannot recover
+	// the spent script (see SpendShape in blocks.go).
+	OpaqueSpendPct int
 }
 
 // NewGen builds parameters and a freshly mined genesis block.
@@ -120,6 +124,7 @@ func NewGen(c Config) *Gen {
 		MaxHashes: 2048,
 	}
 	g.wallet = newWallet(rng)
+	g.wallet.opaquePct = c.OpaqueSpendPct
 
 	// Genesis: the regtest genesis block with our timestamp, re-mined.
 	gb := *chaincfg.RegressionNetParams.GenesisBlock // copy (shares tx slice; never mutated)
